@@ -107,6 +107,7 @@ pub fn plan(id: &str) -> Option<Plan> {
                 Engine { name: "sim", salt: 1, quick: 6000, thorough: 400_000, serial: false, run: Box::new(|s, t| c03::scenario("C03", s, t)) },
                 Engine { name: "stress", salt: 2, quick: 3, thorough: 16, serial: true, run: Box::new(|s, t| c03::stress("C03", s, t.pick(20_000, 100_000))) },
                 Engine { name: "stress-parked-call", salt: 5, quick: 3, thorough: 16, serial: true, run: Box::new(|s, _t| c03::parked_call(s)) },
+                Engine { name: "stress-slow-listener", salt: 6, quick: 4, thorough: 24, serial: false, run: Box::new(|s, _t| c03::slow_listener(s)) },
             ],
             extra: None,
         },
@@ -237,6 +238,7 @@ pub fn plan(id: &str) -> Option<Plan> {
             engines: vec![
                 Engine { name: "sim", salt: 1, quick: 600, thorough: 60_000, serial: false, run: Box::new(|s, t| c18::scenario(s, t)) },
                 Engine { name: "overrun", salt: 2, quick: 400, thorough: 40_000, serial: false, run: Box::new(|s, t| c18::scenario_overrun(s, t)) },
+                Engine { name: "stress-rotation", salt: 3, quick: 4, thorough: 24, serial: true, run: Box::new(|s, t| c18::stress_rotation(s, t.pick(20_000, 60_000))) },
             ],
             extra: None,
         },
